@@ -2,11 +2,14 @@
 import copy
 import itertools
 import pickle
+import types
+
+import z3
 
 from symx.core import SymReal
 from symx.shims import clear_caches
 
-from .common import PREFIX, And, Case, Not, call, check_names, close, exact_eq, payload
+from .common import PREFIX, And, Case, Not, band, call, check_names, close, exact_eq, payload
 from .registry_common import BAR, FOO, NAMES, dims_equal, mc_stats, merge_mc, req, sel, state_id
 
 LEVEL = "model_checking"
@@ -25,7 +28,16 @@ MANIFEST = dict(
           "step equals what that registry's OWN table says (expected answer read off the raw rows with the harness's prefix table), so a "
           "process-wide memo that hands one registry's derived row or Unit object to another is seen even if nothing changes afterwards; "
           "default_unit_registry.modify/remove must raise for every symbol and every symbolic value; mixed-registry operations must bind "
-          "the result to the left operand's registry and change no digest. The violations this property is about are aliasing of dicts "
+          "the result to the left operand's registry and change no digest. The SOURCE of every copy/restore route is also the library's "
+          "DEFAULT registry (15 routes from default-bound quantities, arrays and units: deepcopy, Unit.copy(deep), pickle, JSON, copy.copy, lut=): "
+          "the registry obtained must be an object of its own sharing no table with the default one, and the default table and the SET of "
+          "names exported by the unyt namespace are compared from BEFORE the custom registries are created; every add_new step adds through "
+          "reg.add AND through define_unit(..., registry=reg). Mixed-registry operations run over every ordered pair of registries of the "
+          "world INCLUDING the default registry and the watched source, with the right operand written in a symbol the left registry knows "
+          "and in one it LACKS (then: result bound to one of the two operands' registries, never to a look-alike third; physical value; "
+          "conversion by string as that registry's own table says), for mul, div, add, sub and the temperature rule that returns the "
+          "second operand's unit; products of foreign-symbol operations are KEPT and converted by string again after every later step "
+          "that edits neither operand's registry. The violations this property is about are aliasing of dicts "
           "and memo keys that forget the registry, i.e. discrete facts: the interleavings are enumerated, the solver's share is that "
           "digests are compared as terms (a write or a memo hit that stores a different symbol is seen even where a test would store an equal number)."),
     design="DESIGN.md section 4 C13",
@@ -39,15 +51,27 @@ EXPLANATION = (
     "registry that was not edited in the step answers - through its warm Unit cache, through reg[s]/in, through a never-seen spelling - is "
     "what its own raw table says (prefix table of the harness x base row), and the Unit it returns is bound to it. digest = probe-string "
     "resolutions as terms in the four channels + raw table rows, new rows tolerated only if they are derived SI-prefixed rows of a "
-    "prefixable symbol with scale prefix*base. Observation order inside a step: operated-on registry first, then the others."
+    "prefixable symbol with scale prefix*base. Observation order inside a step: operated-on registry first, then the others. "
+    "(3) setup frame: the default table and the namespace (24 names + the set of exported names) after all custom registries were created, "
+    "copied, restored and furnished equal what they were before. (4) mixed operations: every ordered pair (left, right) over operated "
+    "registries, watched source and DEFAULT registry; right operand in a time symbol known to / foreign to the left registry (BAR, xdu, s - "
+    "whichever the history provides); obligations bound-to-left (known symbol, additive ops), bound-to-an-operand's-registry (foreign symbol, "
+    "temperature difference + point), SI magnitude of the result = product/quotient/sum of the operands' own SI magnitudes, conversion by "
+    "string = what the result registry's raw rows say; kept products re-converted after later steps. The literal demand 'left operand's "
+    "registry' on the foreign-symbol axis is made by the three cases C13/foreign-left/* (unyt answers from the right operand's registry there: recorded finding)."
 )
 BOUNDS = {
-    "quick": "11 registry configurations (A-kind | how B was obtained, incl. copy.copy() of a registry and of the default registry); 11-operation alphabet (4 edits x 2 registries, derive, mixed-registry "
+    "quick": "8 configurations whose source is the DEFAULT registry (deepcopy tuple / units / quantity+array, Unit.copy(deep) twice, pickle tuple / Unit+array, JSON twice, "
+             "copy.copy twice), ALL interleavings of length <= 2 each; 3 foreign-left cases; mixed step: every ordered pair over operated + watched + default registries "
+             "(watched x watched skipped; a pair with a watched registry runs mul(/div) + one additive or the temperature rule, one spelling of the right operand, "
+             "SI-magnitude obligation for mul only - cut for wall time); add_new = reg.add + define_unit(registry=reg); modify edits xfoo, g and xbar. Further: "
+             "11 registry configurations (A-kind | how B was obtained, incl. copy.copy() of a registry and of the default registry); 11-operation alphabet (4 edits x 2 registries, derive, mixed-registry "
              "ops, default-registry ops); ALL interleavings of length <= 3; + 12 fixed histories through the real add_symbols/add_constants; + 13 sibling configurations (two registries "
              "restored/copied together from one watched source: 5 one-dump pickle forms, loads twice, JSON twice, deepcopy of tuple / of units / of [S, S], copy twice, Unit.copy(deep) twice, "
              "lut copy twice) and 3 configurations with a registry that redefines 'm', ALL interleavings of length <= 2 each; probe set of 18 strings (15 also through reg[s] and `in`) + 4 "
              "fresh spellings per registry and observation round + raw rows; unyt namespace: 24 names",
-    "thorough": "12 two-registry configurations + 3 three-registry configurations (15 operations, length <= 3); ALL interleavings of length <= 4 for the four configurations "
+    "thorough": "15 default-source configurations (length <= 3 for deepcopy tuple and pickle Unit+array, <= 2 for the other thirteen); 3 foreign-left cases; mixed step as in quick; warm variants (history axis) only of cases with <= 300 interleavings. Further: "
+                "12 two-registry configurations + 3 three-registry configurations (15 operations, length <= 3); ALL interleavings of length <= 4 for the four configurations "
                 "{independent, deepcopy, Unit.copy() shallow, unpickled} (cut from 'all twelve' to meet the 15 min budget), <= 3 for the other eight; 16 sibling + 3 redefined-'m' "
                 "configurations: length <= 3 for six of them (pickle tuple, pickle Unit+array, JSON twice, deepcopy tuple, copy twice, redefined 'm' next to an independent registry), <= 2 for the other thirteen",
 }
@@ -55,17 +79,21 @@ OUTSIDE = ("interleavings longer than the bound; HDF5 (h5py absent); registries 
            "threads; the content of a copy relative to its original (C11); scales of JSON/pickle sources are concrete (a symbolic real "
            "cannot be serialised), the edit values stay symbolic; more than two siblings per dump (three objects are pickled in the nested form, two of them used); "
            "process-wide state that survives from one explored path to the next other than unyt's lru_caches (the runner clears only those: on a tree with such a "
-           "memo some counterexamples found symbolically may not replay, the ones caused inside one path do)")
+           "memo some counterexamples found symbolically may not replay, the ones caused inside one path do); in mixed operations the right operand is always a TIME "
+           "symbol against a LENGTH symbol on the left (a cancelling same-dimension pair would put a symbolic scale into a sympy expression); mixed pairs of two watched "
+           "registries (default x source); kept products are observed only while neither operand's registry is edited (what an edit of an operand's registry does to "
+           "them is C12's subject); a shallow Unit.copy() of default-bound data shares the default registry by design (2219b71) and is not a route")
 
 ASSUMPTIONS = [
     "C13: the operation taken at step i is decoded from an auxiliary real symbol op_i (interval decoding); the explorer thereby enumerates all interleavings, one path each; the symbols have no meaning for unyt",
     "C13: Unit.__hash__/unit_system_id hash the repr of the registry table: two symbolic scales with different names never hash alike while two equal floats do. Registries that hold the SAME contents are therefore covered by explicit configurations (indep_same and the copy routes), and registries created independently are assumed to differ in the scales of xfoo and xbar",
     "C13: scales of registries that are sources of a JSON or pickle round trip are concrete (2.0, 3.0); values written by later edits are symbolic",
     "C13: trailing blanks do not change the meaning of a unit string ('kxfoo  ' is 'kxfoo'): the fresh spelling of observation round n is the probe string followed by n+1 blanks, a distinct key for every string-keyed cache",
+    "C13: a registry obtained from default-bound data by deepcopy / Unit.copy(deep=True) / pickle / JSON / copy.copy / lut=dict(...) is a custom registry in the sense of the property (an object of its own); only the shallow Unit.copy() may hand back the default registry itself",
     "C13: one pickle.dumps / one copy.deepcopy of a container may restore ONE registry object for several members (it mirrors the sharing of the source); two separate loads / from_json / copy calls must give two registry objects",
 ]
-XNEW, XQQ = "xnew", "xqq"
-PROBE_STRINGS = [FOO, "k" + FOO, BAR, f"{FOO}*{BAR}", XNEW, "k" + XNEW, XQQ, "k" + XQQ, "m", "km", "g", "mg", "s", "K", "degC", "J", "erg/s", "kg*m**2/s**2"]
+XNEW, XQQ, XDU = "xnew", "xqq", "xdu"  # xdu: the symbol every add_new step ALSO defines through define_unit(..., registry=T)
+PROBE_STRINGS = [FOO, "k" + FOO, BAR, f"{FOO}*{BAR}", XNEW, "k" + XNEW, XDU, "k" + XDU, XQQ, "k" + XQQ, "m", "km", "g", "mg", "s", "K", "degC", "J", "erg/s", "kg*m**2/s**2"]
 NS_NAMES = ["m", "km", "cm", "g", "kg", "s", "hr", "K", "degC", "degF", "J", "erg", "W", "N", "Pa", "eV", "Msun", "pc",
             "c", "G", "kboltz", "me", "mp", "speed_of_light"]
 NS_CONV = [("km", "cm"), ("erg", "J"), ("degC", "K"), ("hr", "s")]
@@ -96,6 +124,25 @@ def eq(a, b):
     if sa and sb and a.t.eq(b.t):
         return True
     return exact_eq(a, b)
+
+
+def near(a, b):
+    """close(a, b); answered without a solver query where the simplifier already reduces both sides to the same polynomial"""
+    if isinstance(a, SymReal) and isinstance(b, SymReal) and z3.is_true(z3.simplify(a.t == b.t)):
+        return True
+    return close(a, b)
+
+
+class Lazy:
+    """a diagnostic that is only printed for a counterexample (printing a quantity of solver terms costs milliseconds)"""
+
+    def __init__(self, f):
+        self.f = f
+
+    def __str__(self):
+        return self.f()
+
+    __repr__ = __str__
 
 
 def conj(conds):
@@ -216,7 +263,13 @@ def same_digest(d0, d1):
         else:
             conds.append(rows_equal(a, b))
     conds += [same_answer(d0.cold[s], d1.cold[s]) for s, _ in COLD_PROBES]
-    l0, l1 = d0.lut, d1.lut
+    conds.append(same_table(d0.lut, d1.lut))
+    return conj(conds)
+
+
+def same_table(l0, l1):
+    """raw rows of a table nobody edited: every old row still there and equal, a new row only as the write-back of a prefixed spelling"""
+    conds = []
     for k, row in l0.items():
         now = l1.get(k)
         if now is row:
@@ -269,19 +322,39 @@ def own_table_diff(d):
     return "; ".join(out)[:700]
 
 
-def ns_digest(unyt):
+_NS_NAMES = {}
+
+
+def ns_digest(unyt, conversions=True):
+    """what the unyt namespace exports: identity, value, scale, offset and dimensions of 24 names, 4 conversions between built-in
+    units, and WHICH names there are (a unit defined through a user's registry must not appear here)"""
     out = {}
     for n in NS_NAMES:
         v = getattr(unyt, n, None)
         if v is None:
             out[n] = None
         elif hasattr(v, "value"):
-            out[n] = (id(v), float(v.value), float(v.units.base_value), str(v.units.dimensions))
+            out[n] = (id(v), float(v.value), float(v.units.base_value), v.units.dimensions)
         else:
-            out[n] = (id(v), float(v.base_value), float(v.base_offset), str(v.dimensions))
-    for a, b in NS_CONV:
-        out[a + ">" + b] = float(unyt.unyt_quantity(1.0, a).to(b).value)
+            out[n] = (id(v), float(v.base_value), float(v.base_offset), v.dimensions)
+    if conversions:
+        for a, b in NS_CONV:
+            out[a + ">" + b] = float(unyt.unyt_quantity(1.0, a).to(b).value)
+    # submodules are imported lazily: not counted. The set is rebuilt only when the namespace changed size
+    d = vars(unyt)
+    memo = _NS_NAMES.get(id(d))
+    if memo is None or memo[0] != len(d) or not conversions:
+        memo = _NS_NAMES[id(d)] = (len(d), frozenset(k for k, v in d.items() if not isinstance(v, types.ModuleType)))
+    out["#names"] = memo[1]
     return out
+
+
+def ns_diff(old, new):
+    out = []
+    for k in new:
+        if k in old and new[k] != old[k]:
+            out.append(f"names gained {sorted(new[k] - old[k])[:8]} lost {sorted(old[k] - new[k])[:8]}" if k == "#names" else k)
+    return str(out)
 
 
 # ------------------------------------------------------------------------------------ the world
@@ -323,9 +396,17 @@ def make_A(ctx, kind, symbolic):
 
 def make_siblings(ctx, how, S):
     unyt, UR = ctx.mods["unyt"], ctx.mods["UR"]
-    q = lambda: unyt.unyt_quantity(1.5, FOO, registry=S)  # noqa: E731
-    arr = lambda: unyt.unyt_array([1.0, 2.0], f"k{FOO}/{BAR}", registry=S)  # noqa: E731
-    unit = lambda s=FOO: unyt.Unit(s, registry=S)  # noqa: E731
+    if S is UR.default_unit_registry:
+        # the source is the library's DEFAULT registry: the data are what every user has (quantities, arrays, units made without registry=)
+        foo, kfoo, bar = "m", "km", "s"
+        q = lambda: unyt.unyt_quantity(1.5, foo)  # noqa: E731
+        arr = lambda: unyt.unyt_array([1.0, 2.0], f"{kfoo}/{bar}")  # noqa: E731
+        unit = lambda s=foo: unyt.Unit(s)  # noqa: E731
+    else:
+        foo, kfoo, bar = FOO, "k" + FOO, BAR
+        q = lambda: unyt.unyt_quantity(1.5, foo, registry=S)  # noqa: E731
+        arr = lambda: unyt.unyt_array([1.0, 2.0], f"{kfoo}/{bar}", registry=S)  # noqa: E731
+        unit = lambda s=foo: unyt.Unit(s, registry=S)  # noqa: E731
     if how == "sib_pickle_tuple":  # two arrays in ONE dump
         a, b = pickle.loads(pickle.dumps((q(), arr())))
         return a.units.registry, b.units.registry
@@ -336,7 +417,7 @@ def make_siblings(ctx, how, S):
         u, b = pickle.loads(pickle.dumps((unit(), q())))
         return u.registry, b.units.registry
     if how == "sib_pickle_units":  # two Unit objects in one dump (pickle restores ONE registry object for both: nothing to isolate then)
-        u, v = pickle.loads(pickle.dumps([unit(), unit("k" + FOO)]))
+        u, v = pickle.loads(pickle.dumps([unit(), unit(kfoo)]))
         return u.registry, v.registry
     if how == "sib_pickle_loads_twice":  # the same bytes restored twice
         data = pickle.dumps(arr())
@@ -350,7 +431,7 @@ def make_siblings(ctx, how, S):
         a, b = copy.deepcopy((q(), arr()))
         return a.units.registry, b.units.registry
     if how == "sib_deepcopy_units":
-        u, v = copy.deepcopy([unit(), unit("k" + FOO)])
+        u, v = copy.deepcopy([unit(), unit(kfoo)])
         return u.registry, v.registry
     if how == "sib_deepcopy_registries":  # one deepcopy of a container naming the registry twice
         a, b = copy.deepcopy([S, S])
@@ -361,7 +442,24 @@ def make_siblings(ctx, how, S):
         return unit().copy(deep=True).registry, unit().copy(deep=True).registry
     if how == "sib_lut_copy_twice":
         return UR.UnitRegistry(lut=dict(S.lut)), UR.UnitRegistry(lut=dict(S.lut), add_default_symbols=False)
+    if how == "sib_deepcopy_qty_arr":  # two separate deepcopy calls, one of a quantity, one of an array
+        return copy.deepcopy(q()).units.registry, copy.deepcopy(arr()).units.registry
+    if how == "sib_deepcopy_unit_copy":  # copy.deepcopy of a Unit and the copy() method of an array, then its unit deep-copied
+        return copy.deepcopy(unit(kfoo)).registry, copy.deepcopy(arr().copy().units).registry
     raise KeyError(how)
+
+
+def furnish(ctx, reg, name, others):
+    """the two harness symbols, with symbolic scales of its own, added to a registry that came without them"""
+    D = ctx.mods["unyt"].dimensions
+    s, b = ctx.real("s" + name, pos=True), ctx.real("b" + name, pos=True)
+    if not ctx.pinned:
+        for other in others:
+            if FOO in other.lut:
+                ctx.assume(Not(exact_eq(s, other.lut[FOO][0])))
+                ctx.assume(Not(exact_eq(b, other.lut[BAR][0])))
+    call(reg.add, FOO, s, D.length, prefixable=True)
+    call(reg.add, BAR, b, D.time)
 
 
 ONE_OPERATION = ("sib_pickle_tuple", "sib_pickle_nested", "sib_pickle_unit_qty", "sib_pickle_units", "sib_deepcopy_tuple", "sib_deepcopy_units",
@@ -450,9 +548,26 @@ class World:
         self.DEF = ctx.mods["UR"].default_unit_registry
         kindA, howB = config[0], config[1]
         concrete = howB in SERIALISED
-        A = make_A(ctx, kindA, not concrete)
+        # what the library's default registry and the unyt namespace hold BEFORE any registry of this history exists: creating,
+        # copying, restoring and furnishing the custom registries below must leave both as they are
+        lut0, ns0 = dict(self.DEF.lut), ns_digest(self.unyt, conversions=False)
         self.watch = []  # registries that are observed like all others but never operated on
-        if howB.startswith("sib_"):
+        self.kept = []  # results of mixed-registry operations, observed again after later steps
+        if kindA == "default":
+            # source = the DEFAULT registry: two registries obtained from default-bound data by one of the sibling routes, then used
+            # like any registry of the user's (harness symbols added, edited ...); the default registry is watched as always
+            a, b = make_siblings(ctx, howB, self.DEF)
+            ctx.require("from-default: a registry of its own, sharing no table with the default registry", a is not self.DEF and b is not self.DEF
+                        and no_shared_table([self.DEF, a, b]))
+            if howB not in ONE_OPERATION:
+                ctx.require("siblings: separate restores give separate registries", a is not b)
+            if a is b:
+                b = copy.deepcopy(a)
+            furnish(ctx, a, "A", ())
+            furnish(ctx, b, "B", (a,))
+            self.regs = [R("A", a, True), R("B", b, True)]
+        elif howB.startswith("sib_"):
+            A = make_A(ctx, kindA, not concrete)
             a, b = make_siblings(ctx, howB, A)
             ctx.require("siblings: one registry object or no shared table", no_shared_table([A, a, b]))
             if howB not in ONE_OPERATION:  # two separate restores / copies: two registries (one operation may mirror the source's sharing)
@@ -462,6 +577,7 @@ class World:
             self.regs = [R("A", a, not concrete), R("B", b, not concrete)]
             self.watch.append(("SRC", A))
         else:
+            A = make_A(ctx, kindA, not concrete)
             self.regs = [R("A", A, not concrete), R("B", make_B(ctx, howB, A, "B", (A,)), not concrete or howB.startswith("indep"))]
             if len(config) > 2:
                 self.regs.append(R("C", make_B(ctx, config[2], A, "C", (A, self.regs[1].reg)), True))
@@ -471,6 +587,9 @@ class World:
         self.dirty_default = False
         self.rnd = 0
         self.take_all()
+        req(ctx, "untouched:DEF/after-setup", same_table(lut0, self.dg["DEF"].lut), lambda: self.info(
+            changed=str([k for k in set(lut0) | set(self.DEF.lut) if lut0.get(k) is not self.DEF.lut.get(k)])[:300]))
+        req(ctx, "untouched:unyt-namespace/after-setup", all(self.ns[k] == v for k, v in ns0.items()), lambda: self.info(changed=ns_diff(ns0, self.ns)))
 
     def roles(self, first=()):
         """observation order: the registries named in `first` (the ones just operated on), then all others"""
@@ -516,16 +635,22 @@ class World:
                 for ps in (FOO, "k" + FOO, XNEW):
                     v = new.res[ps]
                     ctx.observe(f"{role}:{ps}", "unknown" if v[0] == "unknown" else v[0])
+        for k in self.kept:
+            # a result of an earlier mixed-registry operation whose operands' registries have not been edited since: converting it
+            # BY STRING (names resolved in whatever registry the result is bound to) gives the very term it gave when it was made
+            r = call(lambda k=k: k["q"].to(k["to"]))
+            req(ctx, f"kept:{k['label']}/after-{op}", conj([r[0] == "ok", r[0] != "ok" or eq(payload(r[1])[0], k["was"])]),
+                lambda r=r, k=k: self.info(product=k["label"], to=k["to"], got=Lazy(lambda: repr(r[1])[:160]), was=Lazy(lambda: repr(k["was"])[:120])))
         ns = ns_digest(self.unyt)
         if "NS" not in touched:
-            req(ctx, f"untouched:unyt-namespace/after-{op}", ns == self.ns, lambda: self.info(changed=str([k for k in ns if ns[k] != self.ns.get(k)])))
+            req(ctx, f"untouched:unyt-namespace/after-{op}", ns == self.ns, lambda: self.info(changed=ns_diff(self.ns, ns)))
         self.ns = ns
         if self.mc is not None:
             self.mc["states"].add(state_id("|".join(self.state_key(r) for r in self.regs)))
 
     def state_key(self, r):
         """abstract state of one registry: which of the watched rows exist and which edit wrote them last"""
-        return r.role + ":" + ",".join(f"{k}={r.tags.get(k, '0')}" if k in r.reg.lut else f"{k}=-" for k in (FOO, BAR, XNEW, "k" + FOO, "M" + XNEW, "g"))
+        return r.role + ":" + ",".join(f"{k}={r.tags.get(k, '0')}" if k in r.reg.lut else f"{k}=-" for k in (FOO, BAR, XNEW, XDU, "k" + FOO, "M" + XNEW, "g"))
 
     @staticmethod
     def diff(old, new):
@@ -551,12 +676,15 @@ class World:
             T = self.by_role(arg).reg
             tags = self.by_role(arg).tags
             if name == "add_new":
-                tags[XNEW] = f"v{i}"
+                # both sanctioned ways of adding a symbol to a registry: reg.add and define_unit(..., registry=reg)
+                tags[XNEW] = tags[XDU] = f"v{i}"
                 call(T.add, XNEW, ctx.real(f"v{i}", pos=True), D.length, prefixable=True)
+                call(unyt.define_unit, XDU, (ctx.real(f"u{i}", pos=True), "s" if "s" in T.lut else BAR), prefixable=True, registry=T)
             elif name == "modify":
-                tags[FOO], tags["g"] = f"v{i}", f"w{i}"
+                tags[FOO], tags["g"], tags[BAR] = f"v{i}", f"w{i}", f"z{i}"
                 call(T.modify, FOO, ctx.real(f"v{i}", pos=True))
                 call(T.modify, "g", ctx.real(f"w{i}", pos=True))
+                call(T.modify, BAR, ctx.real(f"z{i}", pos=True))  # the symbol mixed-registry products are written in
             elif name == "rm_foo":
                 call(T.remove, FOO)
             elif name == "mk_pref":
@@ -568,6 +696,8 @@ class World:
             if name in ("add_new", "modify"):
                 self.by_role(arg).symbolic = True  # now holds a symbolic scale: not serialisable any more
             # a registry that IS the operated one under another role counts as operated on only if the harness made it so
+            if name != "mk_pref":  # what was computed with the edited registry's symbols may change its meaning now (C12's subject)
+                self.kept = [k for k in self.kept if arg not in k["roles"]]
             self.check_untouched(op, touched, touched if name != "mk_pref" else ())
         elif name == "derive":
             self.derive(i, self.by_role(arg))
@@ -613,38 +743,99 @@ class World:
                 call(unyt.Unit, "M" + FOO, registry=d[1])
 
     def mixed(self, i):
-        """operations mixing two registries: result bound to the LEFT operand's registry, nothing written anywhere"""
+        """operations mixing two registries: result bound to the LEFT operand's registry, nothing written anywhere. Every ordered
+        pair of registries of the world takes part - the operated ones, the watched source of siblings and the library's DEFAULT
+        registry (data made without registry=) - and for every pair the right operand is written (a) in a symbol the left registry
+        knows too and (b) in a symbol the left registry LACKS, whichever the history so far provides."""
         ctx, unyt = self.ctx, self.unyt
         x, y = ctx.real(f"x{i}", nonzero=True), ctx.real(f"y{i}", nonzero=True)
+        mul, div = (lambda a, b: a * b), (lambda a, b: a / b)
         for L in self.regs:
             qa, qb = call(ctx.quantity, x, FOO, L.reg), call(ctx.quantity, y, BAR, L.reg)
             if qa[0] == "ok" and qb[0] == "ok":
-                for nm, f in (("mul", lambda a, b: a * b), ("div", lambda a, b: a / b)):
+                for nm, f in (("mul", mul), ("div", div)):
                     r = call(f, qa[1], qb[1])
                     req(ctx, f"own:{L.role}/quantity-{nm}/bound-to-own-registry", r[0] == "ok" and r[1].units.registry is L.reg,
-                        lambda: self.info(got=repr(r[1])[:200]))
-        for L, Rr in itertools.permutations(self.regs, 2):
-            uL, uR = call(unyt.Unit, FOO, registry=L.reg), call(unyt.Unit, BAR, registry=Rr.reg)
-            if uL[0] != "ok" or uR[0] != "ok":
+                        lambda r=r: self.info(got=Lazy(lambda: repr(r[1])[:200])))
+        own = [(r.role, r.reg) for r in self.regs]
+        parts = own + list(self.watch)
+        refused = ("SymbolNotFoundError", "UnitParseError")
+        add, sub = (lambda a, b: a + b), (lambda a, b: a - b)
+        for (nl, Lg), (nr, Rg) in itertools.permutations(parts, 2):
+            # which operations a pair runs (cut for wall time, stated in BOUNDS): two operated registries - everything; a watched
+            # registry (default, source) on the left - quantity mul/div and the temperature rule; on the right - quantity mul and add
+            both, wl, wr = (nl, Lg) in own and (nr, Rg) in own, (nl, Lg) not in own, (nr, Rg) not in own
+            if Lg is Rg or (wl and wr):
                 continue
-            for nm, f in (("mul", lambda a, b: a * b), ("div", lambda a, b: a / b), ("mulpow", lambda a, b: a**2 * b)):
-                r = call(f, uL[1], uR[1])
-                req(ctx, f"mixed:{L.role}{Rr.role}/unit-{nm}/bound-to-left", r[0] == "ok" and r[1].registry is L.reg,
-                    lambda: self.info(got=repr(r[1])))
-            qL, qR = call(ctx.quantity, x, FOO, L.reg), call(ctx.quantity, y, BAR, Rr.reg)
-            if qL[0] != "ok" or qR[0] != "ok":
+            lsym = next((n for n in (FOO, "m") if n in Lg.lut), None)
+            if lsym is None:
                 continue
-            sL, sR = qL[1].units.base_value, qR[1].units.base_value
-            for nm, f, want in (("mul", lambda a, b: a * b, x * sL * (y * sR)), ("div", lambda a, b: a / b, (x * sL) / (y * sR))):
-                r = call(f, qL[1], qR[1])
-                if r[0] == "ok":
-                    # each operand keeps the meaning its own registry gives it: the SI magnitude of the result is the product/quotient
-                    req(ctx, f"mixed:{L.role}{Rr.role}/quantity-{nm}/physical-value",
-                        close(payload(r[1])[0] * r[1].units.base_value, want), lambda: self.info(got=repr(r[1])[:200]))
-                # unyt may refuse (symbol of the right operand unknown to the left registry); if it answers, the answer is the left's
-                ok = (r[0] == "raise" and type(r[1]).__name__ in ("SymbolNotFoundError", "UnitParseError")) or \
-                     (r[0] == "ok" and r[1].units.registry is L.reg)
-                req(ctx, f"mixed:{L.role}{Rr.role}/quantity-{nm}/bound-to-left", ok, lambda: self.info(got=repr(r[1])[:200]))
+            # right operand: a TIME symbol (length x time never cancels: a cancelling pair would write a symbolic scale into a sympy expression)
+            cand = [n for n in (BAR, XDU, "s") if n in Rg.lut]
+            rsyms = [("", next((n for n in cand if n in Lg.lut), None)), ("-foreign", next((n for n in cand if n not in Lg.lut), None))]
+            if not both and rsyms[1][1] is not None:
+                rsyms = rsyms[1:]  # a watched registry takes part: one spelling of the right operand, the foreign one if there is one
+            for kind, rsym in rsyms:
+                if rsym is None:
+                    continue
+                pair = f"mixed:{nl}{nr}"
+                if both:
+                    uL, uR = call(unyt.Unit, lsym, registry=Lg), call(unyt.Unit, rsym, registry=Rg)
+                    if uL[0] != "ok" or uR[0] != "ok":
+                        continue
+                    for nm, f in (("mul", mul), ("div", div), ("mulpow", lambda a, b: a**2 * b)):
+                        r = call(f, uL[1], uR[1])
+                        req(ctx, f"{pair}/unit-{nm}{kind}/bound-to-left", r[0] == "ok" and r[1].registry is Lg, lambda r=r: self.info(got=Lazy(lambda: repr(r[1])[:200])))
+                qL, qR = call(ctx.quantity, x, lsym, Lg), call(ctx.quantity, y, rsym, Rg)
+                if qL[0] != "ok" or qR[0] != "ok":
+                    continue
+                sL, sR = qL[1].units.base_value, qR[1].units.base_value
+                for nm, f, want in (("mul", mul, x * sL * (y * sR)), ("div", div, (x * sL) / (y * sR)))[:1 if wr else 2]:
+                    r = call(f, qL[1], qR[1])
+                    if r[0] == "ok" and (both or nm == "mul"):
+                        # each operand keeps the meaning its own registry gives it: the SI magnitude of the result is the product/quotient
+                        # (the quotient only between two operated registries: a solver query each, cut for wall time)
+                        req(ctx, f"{pair}/quantity-{nm}{kind}/physical-value",
+                            near(payload(r[1])[0] * r[1].units.base_value, want), lambda r=r: self.info(got=Lazy(lambda: repr(r[1])[:200])))
+                    if not kind:
+                        # unyt may refuse; if it answers, the answer is the left's
+                        ok = (r[0] == "raise" and type(r[1]).__name__ in refused) or (r[0] == "ok" and r[1].units.registry is Lg)
+                        req(ctx, f"{pair}/quantity-{nm}/bound-to-left", ok, lambda r=r: self.info(got=Lazy(lambda: repr(r[1])[:200])))
+                        continue
+                    # the left registry cannot express the result (it lacks a symbol). unyt answers from the RIGHT operand's registry
+                    # (recorded as a finding by the cases C13/foreign-left/*, which demand the left one); what holds regardless is
+                    # that the result belongs to one of the two operands' registries - never to a third one that merely looks alike
+                    ok = (r[0] == "raise" and type(r[1]).__name__ in refused) or (r[0] == "ok" and (r[1].units.registry is Lg or r[1].units.registry is Rg))
+                    req(ctx, f"{pair}/quantity-{nm}-foreign/bound-to-an-operand-registry", ok, lambda r=r: self.info(got=Lazy(lambda: repr(r[1])[:200])))
+                    if r[0] == "ok" and nm == "mul":
+                        # converting the product BY STRING resolves the names in the registry the product is bound to: expected from
+                        # that registry's raw rows (harness prefix table) and the operands' own scales; the product is kept and
+                        # converted again after every later step that edits neither operand's registry
+                        G, target = r[1].units.registry, f"k{lsym}*{rsym}"
+                        tl, tr = table_atom(G.lut, "k", lsym), table_atom(G.lut, "", rsym)
+                        if tl is not None and tr is not None:
+                            c, want_c = call(lambda: r[1].to(target)), want / (tl[0] * tr[0])
+                            req(ctx, f"{pair}/quantity-mul-foreign/converts-by-string", conj([c[0] == "ok", c[0] != "ok" or close(payload(c[1])[0], want_c)]),
+                                lambda c=c: self.info(to=target, got=Lazy(lambda: repr(c[1])[:160])))
+                            if c[0] == "ok":
+                                self.kept.append(dict(label=f"{nl}*{nr}-foreign", q=r[1], to=target, was=payload(c[1])[0], roles={nl, nr}))
+            # additive operations and the one rule that returns the SECOND operand's unit (temperature difference + temperature point);
+            # stock symbols with concrete rows that no step of the alphabet edits ("s"; the temperature scales)
+            if not wl and "s" in Lg.lut and "s" in Rg.lut:
+                qa, qb = call(ctx.quantity, x, "ms", Lg), call(ctx.quantity, y, "s", Rg)
+                if qa[0] == "ok" and qb[0] == "ok":
+                    for nm, f, want in (("add", add, x * 1e-3 + y), ("sub", sub, x * 1e-3 - y))[:2 if both else 1]:
+                        r = call(f, qa[1], qb[1])
+                        req(ctx, f"mixed:{nl}{nr}/quantity-{nm}/bound-to-left", r[0] == "ok" and r[1].units.registry is Lg, lambda r=r: self.info(got=Lazy(lambda: repr(r[1])[:200])))
+                        if r[0] == "ok" and both:
+                            req(ctx, f"mixed:{nl}{nr}/quantity-{nm}/physical-value", close(payload(r[1])[0] * r[1].units.base_value, want, extra=band(x * 1e-3, y)),
+                                lambda r=r: self.info(got=Lazy(lambda: repr(r[1])[:200])))
+            if not wr and "delta_degC" in Lg.lut and "degC" in Rg.lut:
+                qa, qb = call(ctx.quantity, x, "delta_degC", Lg), call(ctx.quantity, y, "degC", Rg)
+                if qa[0] == "ok" and qb[0] == "ok":
+                    r = call(add, qa[1], qb[1])
+                    req(ctx, f"mixed:{nl}{nr}/quantity-add-temperature/bound-to-an-operand-registry",
+                        r[0] == "ok" and (r[1].units.registry is Lg or r[1].units.registry is Rg), lambda r=r: self.info(got=Lazy(lambda: repr(r[1])[:200])))
 
     def default_ops(self, i):
         ctx, unyt, DEF = self.ctx, self.unyt, self.DEF
@@ -677,6 +868,39 @@ class World:
                 delattr(unyt, XQQ)
 
 
+# ------------------------------------------------------------------------------------ the left registry lacks a symbol of the right operand
+
+def make_foreign_case(left):
+    """`operations mixing two registries use the left operand's registry`, asked where the left registry cannot express the result:
+    the right operand is written in a symbol only ITS registry has (a quantity in a user's unit times/over plain default-registry
+    data), or the rule hands back the second operand's unit (temperature difference + temperature point). Separate cases, so that
+    what they show on the unchanged library is recorded under a narrow fingerprint."""
+    def h(ctx):
+        unyt, UR, D = ctx.mods["unyt"], ctx.mods["UR"], ctx.mods["unyt"].dimensions
+        Lg = UR.default_unit_registry if left == "default" else UR.UnitRegistry(unit_system="cgs") if left == "cgs" else UR.UnitRegistry()
+        Rg = UR.UnitRegistry()
+        sR = ctx.real("sR", pos=True)
+        Rg.add(BAR, sR, D.time)
+        x, y = ctx.real("x", nonzero=True), ctx.real("y", nonzero=True)
+        qL, qR = ctx.quantity(x, "m", Lg), ctx.quantity(y, BAR, Rg)
+        before = dict(Lg.lut), dict(Rg.lut)
+        for nm, f, want in (("mul", lambda a, b: a * b, x * (y * sR)), ("div", lambda a, b: a / b, x / (y * sR))):
+            r = call(f, qL, qR)
+            ok = (r[0] == "raise" and type(r[1]).__name__ in ("SymbolNotFoundError", "UnitParseError")) or (r[0] == "ok" and r[1].units.registry is Lg)
+            ctx.require(f"foreign:quantity-{nm}/bound-to-left", ok, got=repr(r[1])[:200])
+            if r[0] == "ok":
+                ctx.require(f"foreign:quantity-{nm}/physical-value", close(payload(r[1])[0] * r[1].units.base_value, want), got=repr(r[1])[:200])
+                ctx.require(f"foreign:quantity-{nm}/bound-to-an-operand-registry", r[1].units.registry is Lg or r[1].units.registry is Rg)
+        r = call(lambda: ctx.quantity(x, "delta_degC", Lg) + ctx.quantity(y, "degC", Rg))
+        ctx.require("foreign:temperature-difference-plus-point/bound-to-left", r[0] == "ok" and r[1].units.registry is Lg, got=repr(r[1])[:200])
+        ctx.require("foreign:nothing-written", conj([same_table(before[0], dict(Lg.lut)), same_table(before[1], dict(Rg.lut))]))
+
+    c = Case(f"C13/foreign-left/{left}", h, bounds="one history", budget_s=600, max_paths=2000)
+    c.warm_ok = False  # shows a recorded finding: never used as a warm-up
+    c.warm_target = False
+    return c
+
+
 def alphabet(config):
     roles = ["A", "B", "C"][:len(config)]
     ops = [f"{e}@{r}" for r in roles for e in EDITS]
@@ -687,7 +911,12 @@ def make_case(config, prefix, nmax):
     alpha = alphabet(config)
 
     def h(ctx):
-        clear_caches(ctx.mods)  # the runner does this per symbolic path; the concrete conformance batch does not
+        # the runner resets the library at the start of every path and of every concrete run. After a warm-up (history axis:
+        # another case of this harness ran first in the same path) nothing is cleared: what it left in unyt's memo layers stays
+        if ctx.warming:
+            ctx.c13_warmed = True
+        elif not getattr(ctx, "c13_warmed", False):
+            clear_caches(ctx.mods)
         w = World(ctx, config)
         try:
             for i in range(nmax):
@@ -705,8 +934,12 @@ def make_case(config, prefix, nmax):
             w.cleanup()
 
     n_ext = sum(len(alpha) ** k for k in range(0, nmax - len(prefix) + 1))
-    return Case(f"C13/{'+'.join(config)}/{'.'.join(prefix) or 'empty'}", h, bounds=f"all extensions to length {nmax}: {n_ext} interleavings",
-                budget_s=3000, max_paths=200000, weight=n_ext)
+    c = Case(f"C13/{'+'.join(config)}/{'.'.join(prefix) or 'empty'}", h, bounds=f"all extensions to length {nmax}: {n_ext} interleavings",
+             budget_s=3000, max_paths=200000, weight=n_ext)
+    # history axis (symx.warm): a warm variant re-explores ALL interleavings of its case after the warm-up; the depth-4 cases (1464
+    # interleavings each) are used as warm-ups but not re-explored warm (wall time, stated in BOUNDS)
+    c.warm_target = n_ext <= 300
+    return c
 
 
 CONFIGS2 = [("defaults", "indep_defaults"), ("defaults", "indep_same"), ("empty", "indep_defaults"), ("defaults", "indep_empty"), ("cgs", "indep_defaults"),
@@ -730,8 +963,17 @@ NEW_LONG = [("defaults", "sib_pickle_tuple"), ("defaults", "sib_pickle_unit_qty"
             ("defaults", "sib_copy_twice"), ("modm", "indep_defaults")]
 
 
+# source = the library's DEFAULT registry: registries obtained from default-bound data (what every user has) by every sibling route
+FROM_DEFAULT = [("default", h) for h in ("sib_deepcopy_tuple", "sib_deepcopy_units", "sib_deepcopy_qty_arr", "sib_deepcopy_unit_copy", "sib_unit_copy_deep_twice",
+                                         "sib_deepcopy_registries", "sib_pickle_tuple", "sib_pickle_unit_qty", "sib_pickle_units", "sib_pickle_nested",
+                                         "sib_pickle_loads_twice", "sib_pickle_dumps_twice", "sib_json_twice", "sib_copy_twice", "sib_lut_copy_twice")]
+FROM_DEFAULT_QUICK_SKIP = [("default", h) for h in ("sib_pickle_nested", "sib_pickle_loads_twice", "sib_pickle_dumps_twice", "sib_pickle_units", "sib_deepcopy_registries",
+                                                    "sib_lut_copy_twice", "sib_deepcopy_unit_copy")]
+FROM_DEFAULT_LONG = [("default", "sib_deepcopy_tuple"), ("default", "sib_pickle_unit_qty")]
+
+
 def cases(tier, mods):
-    check_names(mods, NAMES)
+    check_names(mods, NAMES + [XDU])
     out = []
     if tier == "quick":
         plan = [(c, 3) for c in CONFIGS2 if c not in QUICK_SKIP]
@@ -743,15 +985,16 @@ def cases(tier, mods):
         if config in NAMESPACE_CONFIGS:
             for pre in (("namespace@A",), ("modify@A", "namespace@A", "modify@B"), ("mk_pref@B", "namespace@B", "add_new@A", "namespace@A")):
                 out.append(make_case(config, pre, len(pre)))
-    for config in SIBLINGS + MODM:
+    for config in SIBLINGS + MODM + FROM_DEFAULT:
         if tier == "quick":
-            if config not in NEW_QUICK_SKIP:
+            if config not in NEW_QUICK_SKIP + FROM_DEFAULT_QUICK_SKIP:
                 out.append(make_case(config, (), 2))  # all histories of length <= 2 in one case
-        elif config in NEW_LONG:
+        elif config in NEW_LONG + FROM_DEFAULT_LONG:
             for first in alphabet(config):
                 out.append(make_case(config, (first,), 3))
         else:
             out.append(make_case(config, (), 2))
+    out += [make_foreign_case(left) for left in ("default", "defaults", "cgs")]
     return out
 
 
